@@ -96,6 +96,12 @@ class Facts:
             for t in d["traits"]:
                 self.traits[t["path"]] = t
         self._callers = None
+        self.inlined = {}
+        if os.environ.get("VERIF_NO_MIR_INLINE") != "1":
+            try:
+                _inline_new_helpers(self)
+            except Exception as e:  # fail towards the un-inlined program (rules then see the helper calls as before)
+                self.inlined = {"error": "%s: %s" % (type(e).__name__, e)}
 
     # -- lookups ------------------------------------------------------------
     def body(self, path):
@@ -1249,12 +1255,41 @@ def strip_try(t):
             inner = t[1][1]
             if inner[0] == "call" and inner[1].endswith("::branch") and len(inner[2]) == 1:
                 inner = inner[2][0]
-            t = inner
+            t = _payload_of_literal(inner, t[1][2])
             changed = True
         elif t[0] == "call" and len(t[2]) >= 1 and _is_unwrapish(t[1]):
             t = t[2][0]
             changed = True
     return t
+
+
+def _payload_of_literal(x, want):
+    """payload convention continued through literals: the Ok/Some payload of `Ok(v)` is v, of a merge of alternatives the merge
+    of the payloads of those that are not errors (this is what `helper(..)?` looks like once the helper — which itself uses `?`
+    and ends in `Ok(v)` — has been inlined: phi{from_residual(e), Ok{v}}? is v)"""
+    y = x
+    while y[0] == "mut":
+        y = y[1]
+    if y[0] == "agg" and y[1] in ("std::result::Result", "std::option::Option", "core::result::Result", "core::option::Option"):
+        if y[2] in ("Ok", "Some") and y[3]:
+            return y[3][0][1]
+        return x
+    if y[0] == "phi":
+        kept = []
+        for a in y[1]:
+            b = a
+            while b[0] == "mut":
+                b = b[1]
+            if b[0] == "agg" and b[1] in ("std::result::Result", "std::option::Option", "core::result::Result", "core::option::Option"):
+                if b[2] in ("Ok", "Some") and b[3]:
+                    kept.append(b[3][0][1])
+                continue
+            if b[0] == "call" and re.search(r"FromResidual<.*>>::from_residual$", b[1]):
+                continue
+            kept.append(a)
+        if kept and len(kept) < len(y[1]) or (kept and any(k_ not in y[1] for k_ in kept)):
+            return mk_phi(kept) if len(kept) > 1 else kept[0]
+    return x
 
 
 _UNWRAPISH = re.compile(r"^std::(option::Option|result::Result)::<.*>::(unwrap|expect|unwrap_or_default|ok|ok_or|ok_or_else|map_err|unwrap_unchecked)$")
@@ -1882,6 +1917,9 @@ def tree_of(F, root):
         for q in sorted(F.bodies):
             if q.startswith(p + "::{closure") and q not in out:
                 work.append(q)
+        for q in b.closures_created():
+            if q in F.bodies and q not in out:
+                work.append(q)
         for c in b.calls():
             k = c.callee
             if k and known and k in F.bodies and k not in known and "{closure" not in k:
@@ -1926,6 +1964,182 @@ def partitioned_terms(body, removed_edges):
     tm = Terms(body, edge_ok=lambda x, y: (x, y) not in removed and x in live)
     tm.live = live
     return tm
+
+
+# --------------------------------------------------------------------------
+# MIR-level inlining of new helper functions
+# --------------------------------------------------------------------------
+# A function that is not in known_functions.txt did not exist when the rules were written: it is code that a refactoring moved
+# out of (or shared between) the functions the rules are anchored in.  Before any rule runs, every call of such a helper is
+# replaced by a copy of the helper's blocks (locals and block numbers shifted, arguments assigned, `return` turned into a jump
+# to the continuation), so that CFG, dominators, loops, value-flow terms and tables of the anchored function are those of the
+# program with the helper written out in place.  After that, switches on an enum discriminant or bool that is a constant in
+# the inlined copy (a `direction: &Direction` parameter that the caller passes as `&Direction::Forward`) are folded to a jump.
+# Recursive helpers, trait methods and closures are not inlined (closures called directly are handled on the value level).
+# On the unchanged tree there is no such function and nothing happens.
+
+_INLINE_MAX_BLOCKS = 400
+
+
+def _shift(o, loff, boff, cont, unwind_to):
+    """deep copy of a MIR fragment with locals shifted by loff and block numbers by boff"""
+    if isinstance(o, list):
+        return [_shift(x, loff, boff, cont, unwind_to) for x in o]
+    if not isinstance(o, dict):
+        return o
+    out = {}
+    for k, v in o.items():
+        if k == "l" and isinstance(v, int):
+            out[k] = v + loff
+        elif k in ("target", "otherwise", "unwind") and isinstance(v, int):
+            out[k] = v + boff
+        elif k == "targets" and isinstance(v, list):
+            out[k] = [[x[0], x[1] + boff] for x in v]
+        else:
+            out[k] = _shift(v, loff, boff, cont, unwind_to)
+    return out
+
+
+def _inline_calls(raw, helpers, stats):
+    """raw body with every call of an inlinable helper replaced by the helper's (already processed) blocks"""
+    blocks = raw["blocks"]
+    if not any(b["term"]["k"] == "call" and (b["term"]["func"].get("resolved") or b["term"]["func"].get("def")) in helpers for b in blocks):
+        return raw
+    raw = dict(raw)
+    raw["blocks"] = blocks = [dict(b, stmts=list(b["stmts"])) for b in blocks]
+    raw["locals"] = locals_ = list(raw["locals"])
+    raw["debug"] = debug = list(raw.get("debug", []))
+    n0 = len(blocks)
+    for i in range(n0):
+        t = blocks[i]["term"]
+        if t["k"] != "call":
+            continue
+        key = t["func"].get("resolved") or t["func"].get("def")
+        H = helpers.get(key)
+        if H is None or len(t["args"]) != H["argc"] or len(blocks) + len(H["blocks"]) > 4000 or blocks[i]["cleanup"]:
+            continue
+        loff, boff = len(locals_), len(blocks)
+        cont = boff + len(H["blocks"])
+        locals_.extend(H["locals"])
+        line = t.get("line")
+        for j, a in enumerate(t["args"]):
+            blocks[i]["stmts"].append({"k": "assign", "place": {"l": loff + j + 1, "p": []}, "rv": {"k": "use", "op": a}, "line": line, "exp": False, "inl": key})
+        uw = t.get("unwind") if isinstance(t.get("unwind"), int) else None
+        for hb in H["blocks"]:
+            nb = _shift(hb, loff, boff, cont, uw)
+            if nb["term"]["k"] == "return":
+                nb["term"] = {"k": "goto", "target": cont, "line": nb["term"].get("line"), "exp": False}
+            elif nb["term"]["k"] == "resume" and uw is not None:
+                nb["term"] = {"k": "goto", "target": uw, "line": nb["term"].get("line"), "exp": False}
+            blocks.append(nb)
+        tgt = t.get("target")
+        cont_term = {"k": "goto", "target": tgt, "line": line, "exp": False} if isinstance(tgt, int) else {"k": "unreachable", "line": line, "exp": False}
+        blocks.append({"stmts": [{"k": "assign", "place": t["dest"], "rv": {"k": "use", "op": {"k": "move", "place": {"l": loff, "p": []}, "ty": H["locals"][0]["ty"]}}, "line": line, "exp": False, "inl": key}], "term": cont_term, "cleanup": False})
+        blocks[i]["term"] = {"k": "goto", "target": boff, "line": line, "exp": False, "inl_call": key}
+        for d in H.get("debug", []):
+            d2 = _shift(d, loff, 0, 0, None)
+            d2.pop("arg", None)
+            debug.append(d2)
+        stats[key] = stats.get(key, 0) + 1
+    return raw
+
+
+def _fold_constant_switches(body):
+    """switches of an inlined copy whose discriminant is a known enum variant or bool constant become jumps"""
+    changed = False
+    tm = Terms(body)
+    for bb, blk in enumerate(body.blocks):
+        t = blk["term"]
+        if t["k"] != "switch" or blk["cleanup"]:
+            continue
+        try:
+            d, names = switch_discr_info(body, bb)
+            dt = tm.operand(d, bb)
+        except Exception:
+            continue
+        x = dt
+        while x[0] == "mut":
+            x = x[1]
+        tgt = None
+        if names is not None and x[0] == "discr":
+            v = x[1]
+            while v[0] == "mut":
+                v = v[1]
+            if v[0] == "agg" and isinstance(v[2], str) and v[2] in names.values():
+                tgt = switch_target(t, names, v[2])
+        elif names is None and x[0] == "const" and isinstance(x[2], bool):
+            hit = [tg for val, tg in t["targets"] if val == int(x[2])]
+            tgt = hit[0] if hit else t["otherwise"]
+        if tgt is not None:
+            blk["term"] = {"k": "goto", "target": tgt, "line": t.get("line"), "exp": False, "folded": True}
+            changed = True
+    return changed
+
+
+def _inline_new_helpers(facts):
+    known = known_functions()
+    if not known:
+        return
+    cand = {}
+    for p, b in facts.bodies.items():
+        r = b.raw
+        if r.get("kind") in ("fn", "assocfn") and p not in known and not r.get("impl_trait") and "{closure" not in p and not p.startswith("const ") and b.crate in ("routee_compass_core", "routee_compass", "routee_compass_powertrain") and len(r["blocks"]) <= _INLINE_MAX_BLOCKS:
+            cand[p] = r
+    if not cand:
+        return
+    calls = {p: {(blk["term"]["func"].get("resolved") or blk["term"]["func"].get("def")) for blk in r["blocks"] if blk["term"]["k"] == "call"} & set(cand) for p, r in cand.items()}
+    # helpers on a call cycle among themselves are left alone
+    def reaches(a, b_, seen):
+        for c in calls.get(a, ()):
+            if c == b_ or (c not in seen and not seen.add(c) and reaches(c, b_, seen)):
+                return True
+        return False
+    rec = {p for p in cand if reaches(p, p, set())}
+    helpers = {}
+    order = []
+    def visit(p, stack=()):
+        if p in helpers or p in rec or p in stack:
+            return
+        for c in sorted(calls.get(p, ())):
+            visit(c, stack + (p,))
+        helpers[p] = _inline_calls(cand[p], {k: v for k, v in helpers.items()}, facts.inlined.setdefault("sites", {}))
+        order.append(p)
+    for p in sorted(cand):
+        visit(p)
+    touched = []
+    for p, b in list(facts.bodies.items()):
+        raw2 = helpers[p] if p in helpers else _inline_calls(b.raw, helpers, facts.inlined.setdefault("sites", {}))
+        if raw2 is not b.raw:
+            nb = Body(raw2, b.crate, facts)
+            facts.bodies[p] = nb
+            touched.append(p)
+    for key, body in list(facts.promoted.items()):
+        pass
+    # constant folding in the bodies that received a copy (a few rounds: folding exposes more constants)
+    for p in touched:
+        for _ in range(3):
+            body = facts.bodies[p]
+            if not _fold_constant_switches(body):
+                break
+            facts.bodies[p] = Body(body.raw, body.crate, facts)
+    # a helper whose every call was replaced is no longer a function of the program the rules look at (its closures stay:
+    # the inlined copies create them); one that is still called somewhere (e.g. from a cleanup path) is kept
+    still = set()
+    for p, b in facts.bodies.items():
+        for blk in b.raw["blocks"]:
+            t = blk["term"]
+            if t["k"] == "call":
+                k = t["func"].get("resolved") or t["func"].get("def")
+                if k in helpers:
+                    still.add(k)
+    facts.inlined_bodies = {}
+    for p in helpers:
+        if p not in still and facts.inlined.get("sites", {}).get(p):
+            facts.inlined_bodies[p] = facts.bodies.pop(p)
+    facts.inlined["helpers"] = sorted(helpers)
+    facts.inlined["removed"] = sorted(facts.inlined_bodies)
+    facts.inlined["recursive"] = sorted(rec)
+    facts.inlined["into"] = sorted(touched)
 
 # --------------------------------------------------------------------------
 # positional reading of iterator chains
@@ -2596,16 +2810,24 @@ def _spec_eval(F, body, env, depth):
     uniq = list(dict.fromkeys(vals))
     if len(uniq) == 1:
         v = uniq[0]
-        # delegation: the value is a call of another workspace function that is handed the known variant: evaluate that one
-        # under it (`self.graph.incident_edges_iter(v, self)` under Forward *is* `out_edges_iter(v)`)
-        if v[0] == "call" and depth < 3:
-            k = re.sub(r"\{.*\}$", "", v[1])
-            if k in F.bodies and not F.bodies[k].natural_loops():
-                henv = {j + 1: env[a[1]] for j, a in enumerate(v[2]) if a[0] == "arg" and a[1] in env}
-                if henv:
-                    r = spec_eval(F, F.bodies[k], henv, depth + 1)
-                    if r is not None:
-                        return nosite(deep_strip(substitute_args(r, tuple(v[2]))))
+        # delegation: a call (anywhere in the value) of another workspace function that is handed the known variant is
+        # evaluated under it (`self.graph.incident_edges_iter(v, self)` under Forward *is* `out_edges_iter(v)`;
+        # `self.numerator_and_denominator().1` under KilowattHoursPerMeter *is* Meters)
+        if depth < 3:
+            def deleg(x):
+                if x[0] != "call":
+                    return None
+                k = re.sub(r"\{.*\}$", "", x[1])
+                if k in F.bodies and not F.bodies[k].natural_loops() and k != body.path:
+                    henv = {j_ + 1: env[a[1]] for j_, a in enumerate(x[2]) if a[0] == "arg" and a[1] in env}
+                    if henv:
+                        r = spec_eval(F, F.bodies[k], henv, depth + 1)
+                        if r is not None:
+                            return nosite(deep_strip(substitute_args(r, tuple(x[2]))))
+                return None
+            v2 = rewrite(v, deleg)
+            if v2 != v:
+                v = proj_simplify(v2)
         return v
     return None
 
